@@ -11,8 +11,10 @@ import (
 	"errors"
 	"fmt"
 	"os"
+	"runtime"
 	"strings"
 	"sync"
+	"sync/atomic"
 	"testing"
 	"testing/synctest"
 	"time"
@@ -24,20 +26,21 @@ import (
 )
 
 type wcWaiter struct {
-	id       int
-	kind     string
-	ctx      context.Context
-	op       *vkit.Op
-	cancel   context.CancelFunc
-	deadline time.Time
-	hasDL    bool
-	ctxDone  bool // model: ctx cancelled / expired
-	lastEval int  // -1 none, 0 false, 1 true (written by the predicate, under the lock)
-	evals    int
-	unlocked bool // predicate observed the lock not held
-	done     bool
-	watcher  bool // started with a live, non-nil context: a watcher goroutine exists while the call runs
-	fresh    bool // started in the current step
+	id         int
+	kind       string
+	ctx        context.Context
+	op         *vkit.Op
+	cancel     context.CancelFunc
+	deadline   time.Time
+	hasDL      bool
+	ctxDone    bool // model: ctx cancelled / expired
+	lastEval   int  // -1 none, 0 false, 1 true (written by the predicate, under the lock)
+	evals      int
+	unlocked   bool // predicate observed the lock not held
+	done       bool
+	watcher    bool        // started with a live, non-nil context: a watcher goroutine exists while the call runs
+	fresh      bool        // started in the current step
+	cancelInFn atomic.Bool // the next evaluation of the predicate cancels the waiter's context itself
 }
 
 func TestWaitCondStep(t *testing.T) {
@@ -132,7 +135,11 @@ func TestWaitCondStep(t *testing.T) {
 						continue
 					}
 					if mustReturn {
-						fail("C05/waitcond-lost-wakeup", "WaitCond (waiter %d, ctx %s) still blocked at quiescence: ctxDone=%v ready=%v broadcast=%v", w.id, w.kind, w.ctxDone, ready, broadcast)
+						sig := "C05/waitcond-lost-wakeup"
+						if w.ctxDone {
+							sig = "C05+C12/waitcond-lost-wakeup" // a cancellation that does not end the call (and its goroutines)
+						}
+						fail(sig, "WaitCond (waiter %d, ctx %s) still blocked at quiescence: ctxDone=%v ready=%v broadcast=%v", w.id, w.kind, w.ctxDone, ready, broadcast)
 					}
 				}
 			}
@@ -177,6 +184,14 @@ func TestWaitCondStep(t *testing.T) {
 							w.unlocked = true
 						}
 						w.evals++
+						if w.cancelInFn.CompareAndSwap(true, false) {
+							// the cancellation lands while the predicate runs (the lock is held): its wake-up must not be
+							// spent before this call parks
+							w.cancel()
+							for i := 0; i < 50; i++ {
+								runtime.Gosched()
+							}
+						}
 						if ready {
 							w.lastEval = 1
 						} else {
@@ -234,6 +249,29 @@ func TestWaitCondStep(t *testing.T) {
 					silentCancel = true
 					tr("cancel(w%d)", w.id)
 					check(false)
+				},
+				"cancelInPredicate": func(t *rapid.T) {
+					var c []*wcWaiter
+					for _, w := range waiters {
+						if !w.done && w.cancel != nil && !w.ctxDone {
+							c = append(c, w)
+						}
+					}
+					if len(c) == 0 || ready {
+						t.Skip("nobody to cancel from inside the predicate")
+					}
+					w := c[rapid.IntRange(0, len(c)-1).Draw(t, "which")]
+					w.ctxDone = true
+					w.cancelInFn.Store(true)
+					wokeBlocked = true
+					mu.Lock()
+					cond.Broadcast() // every parked waiter evaluates its predicate again (still false)
+					mu.Unlock()
+					tr("cancelInPredicate(w%d)", w.id)
+					check(false)
+					if w.cancelInFn.Load() {
+						fail("C05/predicate-not-reevaluated", "waiter %d did not evaluate its predicate after a broadcast", w.id)
+					}
 				},
 				"advance": func(t *rapid.T) {
 					d := time.Duration(rapid.IntRange(1, 3).Draw(t, "ms")) * time.Millisecond
